@@ -44,13 +44,18 @@ Definition absorbing (s : nat) : bool :=
 Definition adj (s ns : nat) : bool :=
   existsb (fun a => avail m s a && nltb n0 (P m s a ns)) (seq 0 (nA m)).
 
-(* can_reach k s: an absorbing state is accessible from s in <= k steps
-   (floyd_warshall distance 0 on the diagonal: an absorbing state reaches itself) *)
-Fixpoint can_reach (k : nat) (s : nat) : bool :=
+(* reach_tab k: for each state, whether an absorbing state is accessible in <= k steps
+   (floyd_warshall has distance 0 on the diagonal: an absorbing state reaches itself);
+   tabulated level by level so that evaluation is polynomial *)
+Fixpoint reach_tab (k : nat) : list bool :=
   match k with
-  | O => absorbing s
-  | S k' => can_reach k' s || existsb (fun ns => adj s ns && can_reach k' ns) (seq 0 (nS m))
+  | O => map absorbing (seq 0 (nS m))
+  | S k' => let r := reach_tab k' in
+            map (fun s => nth s r false ||
+                          existsb (fun ns => adj s ns && nth ns r false) (seq 0 (nS m)))
+                (seq 0 (nS m))
   end.
+Definition can_reach (k s : nat) : bool := nth s (reach_tab k) false.
 Definition unable_to_reach (s : nat) : bool :=
   if nltb (gamma m) n1 then false else negb (can_reach (nS m) s).
 
@@ -71,9 +76,3 @@ Definition Qpol (pi : nat -> nat -> T) (V : nat -> T) (s : nat) : T :=
   sumf (nA m) (fun a => pi s a * Qval V s a).
 
 End Generic.
-
-Arguments sa_reward {T NT}. Arguments absorbing {T NT}. Arguments dead_end {T NT}.
-Arguments unable_to_reach {T NT}. Arguments masked {T NT}.
-Arguments Pm {T NT}. Arguments Rm {T NT}. Arguments Qval {T NT}.
-Arguments backup {T NT}. Arguments Qpol {T NT}. Arguments can_reach {T NT}.
-Arguments adj {T NT}. Arguments self_looping {T NT}. Arguments zero_reward {T NT}.
